@@ -334,6 +334,10 @@ pub fn cases(tier: Tier) -> Vec<Case> {
         for level in 0..d.saturating_sub(1) {
             for pre in &side_lists {
                 for post in &side_lists {
+                    // (thorough tier: two-filler lists on one side at a time, the full square does not fit in memory)
+                    if pre.len() > 1 && post.len() > 1 {
+                        continue;
+                    }
                     let mut dpre = empty_sides.clone();
                     let mut dpost = empty_sides.clone();
                     dpre[level] = pre.clone();
@@ -351,8 +355,11 @@ pub fn cases(tier: Tier) -> Vec<Case> {
                 docs.push(Doc { path: p.clone(), pre: sides.clone(), post: sides.clone(), targets: vec![inner.clone()], separator: None, kind: TargetKind::Normal, upper, attrs });
             }
         }
-        for doc in docs {
-            for f in fl.iter().filter(|f| applicable(&doc.path, f)) {
+        for (di, doc) in docs.into_iter().enumerate() {
+            // the thorough tier holds millions of documents: the filters added after round 6 (empty value, skeleton selectors) go
+            // with every 4th of them there (with every document in the quick tier)
+            let late = |f: &Filt| f.value.is_empty() || matches!(f.selector, Sel::Body | Sel::HeadOrSpan);
+            for f in fl.iter().filter(|f| applicable(&doc.path, f) && (tier == Tier::Quick || di % 4 == 0 || !late(f))) {
                 out.push(Case::One(doc.clone(), f.clone()));
             }
         }
